@@ -431,6 +431,11 @@ func c07Run(t *testing.T, sc Scenario, res *Result) {
 	res.inc(fmt.Sprintf("first_failure_index_bucket:%d", bucket(idx)))
 	res.nontrivial(fmt.Sprintf("%x", sc.Seed))
 	fb := flagsWith(base, "rapid.seed", fmt.Sprint(a.rp.Seed))
+	if mix(sc.Seed, 0x7b)%2 == 0 {
+		// the user re-runs the printed seed with -rapid.v to look at the failing case: what is generated must not depend on it
+		fb["rapid.v"] = "true"
+		res.inc("reruns_with_rapid.v")
+	}
 	b := runProgram(p, runOpts{name: "C07", flags: fb})
 	os.RemoveAll("testdata")
 	if b.dur > nearLimit {
